@@ -187,6 +187,24 @@ void use_ranges(const OVM::TopologyKernel &m, const OVM::TetrahedralMeshTopology
   for (auto x : h.halfface_sheet_halffaces(hf)) (void)x;
 }
 
+template <class V>
+void use_vec(V a, V b, typename V::value_type s) {
+  a += b; a -= b; a *= b; a /= b; a *= s; a /= s;
+  (void)(a + b); (void)(a - b); (void)(a * b); (void)(a / b); (void)(a * s); (void)(a / s); (void)(-a);
+  (void)(a | b); (void)a.dot(b); (void)a.sqrnorm(); (void)a.l1_norm(); (void)a.l8_norm();
+  (void)a.max(); (void)a.min(); (void)a.max_abs(); (void)a.min_abs(); (void)a.mean(); (void)a.mean_abs();
+  a.minimize(b); a.maximize(b); (void)a.minimized(b); (void)a.maximized(b); (void)a.min(b); (void)a.max(b);
+  (void)(a == b); (void)(a != b); (void)(a < b);
+  if constexpr (std::is_floating_point_v<typename V::value_type>) { (void)a.norm(); (void)a.length(); a.normalize(); (void)a.normalized(); a.normalize_cond(); }
+  if constexpr (V::dim() == 3) { (void)(a % b); (void)a.cross(b); }
+  if constexpr (V::dim() == 4 && std::is_floating_point_v<typename V::value_type>) { (void)a.homogenized(); }
+}
+template void use_vec(OVM::Geometry::Vec3d, OVM::Geometry::Vec3d, double);
+template void use_vec(OVM::Geometry::Vec3i, OVM::Geometry::Vec3i, int);
+template void use_vec(OVM::Geometry::Vec2f, OVM::Geometry::Vec2f, float);
+template void use_vec(OVM::Geometry::Vec4d, OVM::Geometry::Vec4d, double);
+template void use_vec(OVM::Geometry::Vec4i, OVM::Geometry::Vec4i, int);
+
 void use_tagger(OVM::TopologyKernel &m) {
   OVM::SmartTaggerBool<OVM::Entity::Vertex> tb(m);
   tb.reset();
